@@ -558,3 +558,41 @@ package shell_operator
 //@     invariant forall(i, 0, len(hookRunTasks), dyntype(hookRunTasks[i], *task.BaseTask) && hookRunTasks[i].(*task.BaseTask) != nil && hookRunTasks[i].(*task.BaseTask).QueueName == "main")
 //@   loop 1
 //@     invariant forall(i, 0, len(hookRunTasks), dyntype(hookRunTasks[i], *task.BaseTask) && hookRunTasks[i].(*task.BaseTask) != nil && hookRunTasks[i].(*task.BaseTask).QueueName == "main")
+
+// ---- C03 / C17: the queues named by hook bindings ----------------------------------------------
+// A queue that exists already (main, or one created for an earlier binding) is kept - no second
+// worker for the same name -; every queue created here gets a context derived from the queue
+// set's context (it stops when the set is stopped) and only queues created here are started.
+//@ func (*ShellOperator).initAndStartHookQueues
+//@   prop C03, C17
+//@   requires op != nil && op.HookManager != nil && op.TaskQueues != nil && op.TaskQueues.Queues != nil
+//@   requires forall(n, string, has(op.TaskQueues.Queues, n) ==> op.TaskQueues.Queues[n] != nil)
+//@   requires [assumed:hook-index-well-formed] forall(a, 0, len(op.HookManager.hooksInOrder["schedule"]), op.HookManager.hooksInOrder["schedule"][a] != nil && op.HookManager.hooksInOrder["schedule"][a].Config != nil)
+//@   requires [assumed:hook-index-well-formed] forall(a, 0, len(op.HookManager.hooksInOrder["schedule"]), forall(b, 0, len(op.HookManager.hooksInOrder["schedule"]), a < b ==> op.HookManager.hooksInOrder["schedule"][a].Name < op.HookManager.hooksInOrder["schedule"][b].Name))
+//@   requires [assumed:hook-index-well-formed] forall(a, 0, len(op.HookManager.hooksInOrder["kubernetes"]), op.HookManager.hooksInOrder["kubernetes"][a] != nil && op.HookManager.hooksInOrder["kubernetes"][a].Config != nil)
+//@   requires [assumed:hook-index-well-formed] forall(a, 0, len(op.HookManager.hooksInOrder["kubernetes"]), forall(b, 0, len(op.HookManager.hooksInOrder["kubernetes"]), a < b ==> op.HookManager.hooksInOrder["kubernetes"][a].Name < op.HookManager.hooksInOrder["kubernetes"][b].Name))
+//@   requires [assumed:index-slices-of-different-binding-types-do-not-share-storage] base(op.HookManager.hooksInOrder["schedule"]) != base(op.HookManager.hooksInOrder["kubernetes"]) || len(op.HookManager.hooksInOrder["kubernetes"]) == 0
+//@   modifies mapof(op.TaskQueues.Queues), queue.nQueueStart, queue.startedQueue, kubeeventsmanager.nCtx, kubeeventsmanager.ctxLog, kubeeventsmanager.ctxParent, kubeeventsmanager.ctxCancel, allelems(*hook.Hook)
+//@   ensures [existing-queues-kept] forall(n, string, old(has(op.TaskQueues.Queues, n)) ==> has(op.TaskQueues.Queues, n) && op.TaskQueues.Queues[n] == old(op.TaskQueues.Queues[n]))
+//@   ensures [new-queues-stop-with-the-set] forall(n, string, has(op.TaskQueues.Queues, n) && !old(has(op.TaskQueues.Queues, n)) ==> op.TaskQueues.Queues[n] != nil && kubeeventsmanager.ctxParentOf(op.TaskQueues.Queues[n].ctx) == op.TaskQueues.ctx)
+//@   ensures [only-new-queues-started] forall(k, old(queue.nQueueStart), queue.nQueueStart, fresh(queue.startedQueue[k]))
+//@   loop 1
+//@     invariant [kept] forall(n, string, old(has(op.TaskQueues.Queues, n)) ==> has(op.TaskQueues.Queues, n) && op.TaskQueues.Queues[n] == old(op.TaskQueues.Queues[n]) && op.TaskQueues.Queues[n] != nil)
+//@     invariant [new]  forall(n, string, has(op.TaskQueues.Queues, n) && !old(has(op.TaskQueues.Queues, n)) ==> op.TaskQueues.Queues[n] != nil && allocated(op.TaskQueues.Queues[n]) && fresh(op.TaskQueues.Queues[n]) && kubeeventsmanager.ctxParentOf(op.TaskQueues.Queues[n].ctx) == op.TaskQueues.ctx)
+//@     invariant [started] queue.nQueueStart >= old(queue.nQueueStart) && forall(k, old(queue.nQueueStart), queue.nQueueStart, fresh(queue.startedQueue[k]))
+//@     invariant forall(a, 0, len(op.HookManager.hooksInOrder["kubernetes"]), op.HookManager.hooksInOrder["kubernetes"][a] != nil && op.HookManager.hooksInOrder["kubernetes"][a].Config != nil)
+//@     invariant forall(a, 0, len(op.HookManager.hooksInOrder["kubernetes"]), forall(b, 0, len(op.HookManager.hooksInOrder["kubernetes"]), a < b ==> op.HookManager.hooksInOrder["kubernetes"][a].Name < op.HookManager.hooksInOrder["kubernetes"][b].Name))
+//@   loop 2
+//@     invariant [kept] forall(n, string, old(has(op.TaskQueues.Queues, n)) ==> has(op.TaskQueues.Queues, n) && op.TaskQueues.Queues[n] == old(op.TaskQueues.Queues[n]) && op.TaskQueues.Queues[n] != nil)
+//@     invariant [new]  forall(n, string, has(op.TaskQueues.Queues, n) && !old(has(op.TaskQueues.Queues, n)) ==> op.TaskQueues.Queues[n] != nil && allocated(op.TaskQueues.Queues[n]) && fresh(op.TaskQueues.Queues[n]) && kubeeventsmanager.ctxParentOf(op.TaskQueues.Queues[n].ctx) == op.TaskQueues.ctx)
+//@     invariant [started] queue.nQueueStart >= old(queue.nQueueStart) && forall(k, old(queue.nQueueStart), queue.nQueueStart, fresh(queue.startedQueue[k]))
+//@     invariant forall(a, 0, len(op.HookManager.hooksInOrder["kubernetes"]), op.HookManager.hooksInOrder["kubernetes"][a] != nil && op.HookManager.hooksInOrder["kubernetes"][a].Config != nil)
+//@     invariant forall(a, 0, len(op.HookManager.hooksInOrder["kubernetes"]), forall(b, 0, len(op.HookManager.hooksInOrder["kubernetes"]), a < b ==> op.HookManager.hooksInOrder["kubernetes"][a].Name < op.HookManager.hooksInOrder["kubernetes"][b].Name))
+//@   loop 3
+//@     invariant [kept] forall(n, string, old(has(op.TaskQueues.Queues, n)) ==> has(op.TaskQueues.Queues, n) && op.TaskQueues.Queues[n] == old(op.TaskQueues.Queues[n]) && op.TaskQueues.Queues[n] != nil)
+//@     invariant [new]  forall(n, string, has(op.TaskQueues.Queues, n) && !old(has(op.TaskQueues.Queues, n)) ==> op.TaskQueues.Queues[n] != nil && allocated(op.TaskQueues.Queues[n]) && fresh(op.TaskQueues.Queues[n]) && kubeeventsmanager.ctxParentOf(op.TaskQueues.Queues[n].ctx) == op.TaskQueues.ctx)
+//@     invariant [started] queue.nQueueStart >= old(queue.nQueueStart) && forall(k, old(queue.nQueueStart), queue.nQueueStart, fresh(queue.startedQueue[k]))
+//@   loop 4
+//@     invariant [kept] forall(n, string, old(has(op.TaskQueues.Queues, n)) ==> has(op.TaskQueues.Queues, n) && op.TaskQueues.Queues[n] == old(op.TaskQueues.Queues[n]) && op.TaskQueues.Queues[n] != nil)
+//@     invariant [new]  forall(n, string, has(op.TaskQueues.Queues, n) && !old(has(op.TaskQueues.Queues, n)) ==> op.TaskQueues.Queues[n] != nil && allocated(op.TaskQueues.Queues[n]) && fresh(op.TaskQueues.Queues[n]) && kubeeventsmanager.ctxParentOf(op.TaskQueues.Queues[n].ctx) == op.TaskQueues.ctx)
+//@     invariant [started] queue.nQueueStart >= old(queue.nQueueStart) && forall(k, old(queue.nQueueStart), queue.nQueueStart, fresh(queue.startedQueue[k]))
